@@ -242,9 +242,24 @@ def rule_a(ctx):
                    "close() ORs closed_channel_mask into the enqueue position", fo or [qb.name])
         else:
             rets = [r for r in K.ret_assigns(qb) if not r.is_term]
-            okr = len(rets) == 1 and rets[0].node["r"]["r"] == "bin" and rets[0].node["r"]["op"] == "Ne" and rets[0].node["r"]["b"].get("v") == 0
+            okr = len(rets) == 1 and rets[0].node["r"]["r"] == "bin" and rets[0].node["r"]["op"] in ("Ne", "Eq")
             if okr:
-                ao = qb.origins(rets[0].node["r"]["a"], rets[0])
+                # `(pos & mask) != 0`, or the same test written `(pos & mask) == mask` (the mask is a single bit); either operand order
+                rr = rets[0].node["r"]
+                is_mask = lambda op: bool(qb.origins(op, rets[0])) and all(origin_proj_names(x)[1][-1:] == [("f", "closed_channel_mask")] for x in qb.origins(op, rets[0]))
+                if rr["op"] == "Ne" and rr["b"].get("v") == 0:
+                    tested = rr["a"]
+                elif rr["op"] == "Ne" and rr["a"].get("v") == 0:
+                    tested = rr["b"]
+                elif rr["op"] == "Eq" and is_mask(rr["b"]):
+                    tested = rr["a"]
+                elif rr["op"] == "Eq" and is_mask(rr["a"]):
+                    tested = rr["b"]
+                else:
+                    tested = None
+                okr = tested is not None
+            if okr:
+                ao = qb.origins(tested, rets[0])
                 okr = len(ao) == 1
                 o = next(iter(ao)) if okr else None
                 okr = okr and o[0] == "bin" and o[1] == "BitAnd"
@@ -254,7 +269,7 @@ def rule_a(ctx):
                           atomics.receiver_field(qb, Site(qb, x[1], TERM)) == "enqueue_pos"]
                     mk = [x for x in sides if origin_proj_names(x)[1][-1:] == [("f", "closed_channel_mask")]]
                     okr = len(ld) == 1 and len(mk) == 1
-            ctx.ob("is-closed|tests-closed-flag", okr, "is_closed() is (enqueue_pos & closed_channel_mask) != 0", rets or [qb.name])
+            ctx.ob("is-closed|tests-closed-flag", okr, "is_closed() tests exactly the closed flag of enqueue_pos: (enqueue_pos & closed_channel_mask) != 0, or == closed_channel_mask", rets or [qb.name])
     # ---- MessageBorrow::drop releases the slot with the stamp computed by pop
     db = ctx.body("<channel::queue::MessageBorrow as std::ops::Drop>::drop")
     if db:
